@@ -311,6 +311,29 @@ pub fn check_c12<P: TP, V: Val>(side: &mut Side<P, V>, env: &mut Env, queries: &
                         ensure!(got == s, "C12", format!("C12:find:entries:{class}"), "state {step}: view {:?}{}.find({:?}) addresses {:?} (prefix {:?}), the view's entries covered by the query are {:?}", vk, if virt { " (virtual)" } else { "" }, qk, got, key_of(f.prefix()), s);
                     }
                 }
+                // searching again from the result is relative to the result's entries (depth-2 chains)
+                if let Some(f) = &f {
+                    if (qi + ri) % 4 == 0 {
+                        for (q3i, q3) in queries.iter().enumerate().skip(qi % 5).step_by(5) {
+                            let q3k = q3.key();
+                            let s3: KV = s.iter().copied().filter(|(e, _)| covers(q3k, *e)).collect();
+                            env.cur_op = "view.find";
+                            match f.find(mk::<P>(*q3)) {
+                                None => ensure!(s3.is_empty(), "C12", "C12:find-chain:none-but-entries", "state {step}: view {:?}.find({:?}).find({:?}) = None although {:?} are covered", vk, qk, q3k, s3),
+                                Some(g) => {
+                                    let got = view_iter(&g, lim);
+                                    ensure!(got == s3, "C12", "C12:find-chain:entries", "state {step}: view {:?}.find({:?}).find({:?}) addresses {:?}, expected {:?}", vk, qk, q3k, got, s3);
+                                }
+                            }
+                            let lpm3 = s.iter().copied().filter(|(e, _)| covers(*e, q3k)).max_by_key(|(e, _)| e.len);
+                            env.cur_op = "view.find_lpm";
+                            let gl = f.find_lpm(&mk::<P>(*q3)).map(|g| key_of(g.prefix()));
+                            ensure!(gl == lpm3.map(|x| x.0), "C12", "C12:find-chain:find_lpm", "state {step}: view {:?}.find({:?}).find_lpm({:?}) = {:?}, expected {:?}", vk, qk, q3k, gl, lpm3.map(|x| x.0));
+                            let _ = q3i;
+                            env.ev("c12_find_chain");
+                        }
+                    }
+                }
                 env.cur_op = "view.view_at";
                 let f2 = v.clone().view_at(qp.clone());
                 ensure!(f2.is_some() == f.is_some(), "C12", "C12:view_at-vs-find", "state {step}: view {:?}: view_at({:?}).is_some() = {} but find gives {}", vk, qk, f2.is_some(), f.is_some());
@@ -414,5 +437,48 @@ pub fn check_c12<P: TP, V: Val>(side: &mut Side<P, V>, env: &mut Env, queries: &
     env.cur_op = "";
     NT.with(|n| n.borrow_mut().extend(nt));
     SUB.with(|c| c.set(c.get() + sub));
+    Ok(())
+}
+
+/// C11 on `PrefixSet`: `AsView for &PrefixSet` and `AsViewMut for &mut PrefixSet`.
+pub fn check_set_views<P: TP>(model: &Model, env: &mut Env, queries: &[Raw]) -> R {
+    use prefix_trie::PrefixSet;
+    let step = env.step;
+    let mut set: PrefixSet<P> = PrefixSet::new();
+    for (k, st) in model.m.iter() {
+        set.insert(P::make(st.repr, k.len));
+    }
+    let lim = 4 * model.len() + 64;
+    let all: Vec<Key> = model.keys();
+    env.cur_op = "set.view";
+    let got: Vec<Key> = (&set).view().iter().take(lim).map(|(p, _)| key_of(p)).collect();
+    ensure!(got == all, "C11", "C11:set.view:iter", "state {step}: (&set).view().iter() = {:?}, expected {:?}", got, all);
+    for q in queries {
+        let qk = q.key();
+        let p: P = mk(*q);
+        let under: Vec<Key> = model.children_keys(qk);
+        env.cur_op = "set.view_at";
+        match (&set).view_at(p.clone()) {
+            None => ensure!(under.is_empty(), "C11", "C11:set.view_at:none-but-entries", "state {step}: (&set).view_at({:?}) = None although {:?} are covered", qk, under),
+            Some(v) => {
+                ensure!(key_of(v.prefix()) == qk, "C11", "C11:set.view_at:prefix", "state {step}: (&set).view_at({:?}) has prefix {:?}", qk, key_of(v.prefix()));
+                let got: Vec<Key> = v.keys().take(lim).map(|p| key_of(p)).collect();
+                ensure!(got == under, "C11", "C11:set.view_at:entries", "state {step}: (&set).view_at({:?}) addresses {:?}, expected {:?}", qk, got, under);
+                ensure!(v.value().is_some() == model.get(qk).is_some(), "C11", "C11:set.view_at:value", "state {step}: (&set).view_at({:?}).value() presence is wrong", qk);
+                ensure!(!under.is_empty() || qk.len == 0, "C11", "C11:set.view_at:exists-but-empty", "state {step}: (&set).view_at({:?}) exists but holds no entry (insert-only set)", qk);
+            }
+        }
+        env.cur_op = "set.view_mut_at";
+        match (&mut set).view_mut_at(p.clone()) {
+            None => ensure!(under.is_empty(), "C11", "C11:set.view_mut_at:none-but-entries", "state {step}: (&mut set).view_mut_at({:?}) = None although {:?} are covered", qk, under),
+            Some(mut v) => {
+                ensure!(key_of(v.prefix()) == qk, "C11", "C11:set.view_mut_at:prefix", "state {step}: (&mut set).view_mut_at({:?}) has prefix {:?}", qk, key_of(v.prefix()));
+                let got: Vec<Key> = v.iter_mut().take(lim).map(|(p, _)| key_of(p)).collect();
+                ensure!(got == under, "C11", "C11:set.view_mut_at:entries", "state {step}: (&mut set).view_mut_at({:?}) addresses {:?}, expected {:?}", qk, got, under);
+            }
+        }
+    }
+    env.ev("c11_set_views_checked");
+    env.cur_op = "";
     Ok(())
 }
